@@ -319,3 +319,60 @@ Proof.
   split; [repeat constructor; try discriminate; cbn; try lia|].
   vm_compute. repeat split; reflexivity.
 Qed.
+
+(* ---------------------------------------------------------------------------------------------------------------
+   What counts as "producer output" (WorkDir.v: experiment.model.storage.WorkingDirectory + the staging part of
+   Job.stageIn).  The engine theorems above speak of lo = the time of a producer's latest output; these say what
+   that is in terms of the producer's working directory. *)
+Require V.Repeat.WorkDir.
+Module W := V.Repeat.WorkDir.
+
+(* staged-in inputs are NOT output: right after Job.stageIn a component without copyout references has no output,
+   whatever its copy / link references brought into the directory and whatever was there before *)
+Theorem C13_staged_inputs_are_not_output : forall d ins t, W.w_ignore d = false -> W.output (W.stage_in d ins [] t) = [].
+Proof. exact W.stage_in_no_output. Qed.
+Print Assumptions C13_staged_inputs_are_not_output.
+
+(* ... in general its output is then exactly what its copyout references staged (output by design) *)
+Theorem C13_output_after_stage_in : forall d ins outs t m, W.w_ignore d = false ->
+  (In m (W.names (W.output (W.stage_in d ins outs t))) <-> In m outs /\ ~ (In m ins \/ In m (W.names (W.w_files d)))).
+Proof. exact W.stage_in_output. Qed.
+Print Assumptions C13_output_after_stage_in.
+
+(* ... and afterwards a file is output iff it was, or the component wrote it and it is not one of its inputs *)
+Theorem C13_output_is_what_was_written : forall d n t m,
+  In m (W.names (W.output (W.wd_put d n t))) <-> In m (W.names (W.output d)) \/ (m = n /\ ~ In n (W.w_inputs d)).
+Proof. exact W.put_output. Qed.
+Print Assumptions C13_output_is_what_was_written.
+
+(* the two questions the engine asks a producer's directory - canConsume: len(output) == 0,
+   producersHaveOutputSinceDate: len(outputSinceDate(date)) > 0 - are the model's tests on lo *)
+Theorem C13_directory_output_is_lo : forall d,
+  is_some (W.lo_wd d) = negb (is_nil (W.output d)) /\
+  forall date, negb (is_nil (W.output_since d date)) = match W.lo_wd d with Some l => l >? date | None => false end.
+Proof. intro d. split; [exact (W.has_output_lo d) | exact (W.since_lo d)]. Qed.
+Print Assumptions C13_directory_output_is_lo.
+
+(* the model's Out event (lo := Some now) is a producer writing a file that is not one of its inputs *)
+Theorem C13_write_is_out_event : forall d n t, ~ In n (W.w_inputs d) -> (forall f, In f (W.output d) -> snd f <= t) ->
+  W.lo_wd (W.wd_put d n t) = Some t.
+Proof. exact W.write_sets_lo. Qed.
+Print Assumptions C13_write_is_out_event.
+
+Theorem C13_rewritten_input_is_not_output : forall d n t, In n (W.w_inputs d) ->
+  W.names (W.output (W.wd_put d n t)) = W.names (W.output d).
+Proof. exact W.rewrite_input_no_output. Qed.
+Print Assumptions C13_rewritten_input_is_not_output.
+
+(* a source-like subject stages in two files of the package: no output, its observer cannot consume; it writes:
+   output, lo is the time of the write, the observer can consume; a copyout reference is output at once *)
+Example C13_producer_output_nonvacuous :
+  let d0 := W.wd_create [] false in
+  let d1 := W.stage_in d0 ["seed.txt"%string; "mesh.dat"%string] [] 100000 in
+  let d2 := W.wd_put d1 "out.dat"%string 115000 in
+  W.names (W.w_files d1) = ["seed.txt"%string; "mesh.dat"%string] /\ W.output d1 = [] /\ W.lo_wd d1 = None /\
+  can_consume_l [pr true false] [W.lo_wd d1] = false /\
+  W.lo_wd d2 = Some 115000 /\ can_consume_l [pr true false] [W.lo_wd d2] = true /\
+  W.names (W.output (W.wd_put d2 "seed.txt"%string 120000)) = ["out.dat"%string] /\
+  W.names (W.output (W.stage_in d0 ["seed.txt"%string] ["f.txt"%string] 100000)) = ["f.txt"%string].
+Proof. vm_compute. repeat split; reflexivity. Qed.
